@@ -25,6 +25,8 @@ struct Plan {
     w3: Vec<(usize, u64, u8)>,
     c13: u64,
     w3_tok: u64,
+    /// shapes up to this many nodes are swept with every PAIR of consecutive operations
+    w2_depth2_n: usize,
 }
 
 fn plan(prop: &str, tier: &str, scale: f64) -> Plan {
@@ -39,6 +41,7 @@ fn plan(prop: &str, tier: &str, scale: f64) -> Plan {
         w3: Vec::new(),
         c13: 0,
         w3_tok: 0,
+        w2_depth2_n: if thorough { 5 } else { 4 },
     };
     match prop {
         "C06" => {
@@ -113,7 +116,7 @@ fn gen_cfg(prop: &str, size: Size) -> GenCfg {
         Size::Large => GenCfg::large(),
     };
     match prop {
-        "C06" | "C11" => g.clear = true,
+        "C06" | "C07" | "C11" => g.clear = true,
         "C08" => {
             g.writes = true;
             g.clear = true;
@@ -129,7 +132,7 @@ fn gen_cfg(prop: &str, size: Size) -> GenCfg {
 
 enum Item {
     W1(Size, u64),
-    W2(usize, bool, Variant),
+    W2(usize, bool, Variant, bool),
     W3(usize, u64, u8),
     C13(u64),
     W3Tok(u64),
@@ -306,7 +309,8 @@ fn main() {
     for (i, _) in shapes.iter().enumerate() {
         for fwd in [true, false] {
             for var in VARIANTS {
-                items.push(Item::W2(i, fwd, var));
+                let d2 = pl.w2_depth2_n > 0 && ixv::shapes::shape_size(&shapes[i]) <= pl.w2_depth2_n && !matches!(prop, "C09" | "C10" | "C11" | "C14");
+                items.push(Item::W2(i, fwd, var, d2));
             }
         }
     }
@@ -397,15 +401,15 @@ fn main() {
                             }
                             out.violation
                         }
-                        Item::W2(si, fwd, var) => match prop {
+                        Item::W2(si, fwd, var, d2) => match prop {
                             "C14" => {
                                 let mut hook = |c: &Ctx, st: &mut ixv::exec::State<Txt>, rng: &mut ixv::rng::Rng, cov: &mut Cov| {
                                     let dummy = st.step(&Op::Reserve(0));
                                     <PrettyHook as Hook<Txt>>::after_step(&mut pretty, c, st, &dummy, true, rng, cov)
                                 };
-                                run_w2_item::<Txt>(&ctx, &shapes[*si], *fwd, *var, &mut cov, &mut hook)
+                                run_w2_item::<Txt>(&ctx, &shapes[*si], *fwd, *var, *d2, &mut cov, &mut hook)
                             }
-                            _ => run_w2_item::<Plain>(&ctx, &shapes[*si], *fwd, *var, &mut cov, &mut |_, _, _, _| Vec::new()),
+                            _ => run_w2_item::<Plain>(&ctx, &shapes[*si], *fwd, *var, *d2, &mut cov, &mut |_, _, _, _| Vec::new()),
                         },
                         Item::W3(s, c, t) => run_w3(&ctx, *s, *c, *t, &mut cov),
                         Item::C13(idx) => run_c13(&ctx, *idx, &mut cov),
@@ -506,6 +510,7 @@ fn main() {
         v.push(("harness_errors".into(), J::U(harness_errors.len() as u64)));
         v.push(("w2_max_nodes".into(), J::U(pl.w2_n as u64)));
         v.push(("w2_shapes".into(), J::U(shapes.len() as u64)));
+        v.push(("w2_depth2_max_nodes".into(), J::U(pl.w2_depth2_n as u64)));
         v.push(("plan".into(), J::s(format!("{:?}", pl))));
     }
     if let Some(p) = &out_path {
